@@ -459,6 +459,10 @@ pub struct Board {
     pub sent_vals: BTreeMap<Uuid, Vec<u64>>,
     /// calls whose pending reply the caller's application dropped: nonce -> caller client
     pub aborted_by_caller: BTreeMap<u64, (usize, Uuid)>,
+    /// events the owners emitted: nonce -> (service cookie, event id)
+    pub emitted: BTreeMap<u64, (Uuid, u32)>,
+    /// last event nonce a proxy instance returned: (client, proxy slot, slot generation) -> nonce
+    pub last_event: BTreeMap<(usize, u8, u64), u64>,
     /// clients that sent on a channel
     pub senders_of: BTreeMap<Uuid, BTreeSet<usize>>,
     /// lifetime scopes that have been ended or dropped
@@ -1187,8 +1191,13 @@ async fn exec(w: &Rc<World>, t: &Rc<TaskCtx>, cc: &Rc<ClientCtx>, op: &Op) -> St
         }
         Op::Emit { s, ev } => {
             let nonce = w.next_nonce();
-            match cc.svcs[*s as usize].with(|svc| svc.emit(EVENTS[*ev as usize], nonce)) {
-                Some(r) => res_name(&r),
+            match cc.svcs[*s as usize].with(|svc| (svc.emit(EVENTS[*ev as usize], nonce), svc.id().cookie.0)) {
+                Some((r, cookie)) => {
+                    if r.is_ok() {
+                        w.board.borrow_mut().emitted.insert(nonce, (cookie, EVENTS[*ev as usize]));
+                    }
+                    res_name(&r)
+                }
                 None => skip(w),
             }
         }
@@ -1328,9 +1337,31 @@ async fn exec(w: &Rc<World>, t: &Rc<TaskCtx>, cc: &Rc<ClientCtx>, op: &Op) -> St
                     .await;
                 match r {
                     Some(Some(ev)) => {
-                        let _ = ev.deserialize::<u64>();
                         got += 1;
                         w.count("event:received");
+                        // payload unchanged, exactly once and in emission order per proxy: the
+                        // value is the nonce of an emit of this very service and event id, and the
+                        // nonces one proxy returns grow strictly (a service's emits are ordered)
+                        let cookie = slot.with(|px| px.id().cookie.0);
+                        match (ev.deserialize::<u64>(), cookie) {
+                            (Ok(nonce), Some(cookie)) => {
+                                let known = w.board.borrow().emitted.get(&nonce).copied();
+                                if known != Some((cookie, ev.id())) {
+                                    w.fail("event:not-what-was-emitted", format!("proxy of service {} returned event id {} with value {} but the emit with that value was {:?}", cookie, ev.id(), nonce, known));
+                                }
+                                let key = (ci, *p, slot.generation());
+                                let prev = w.board.borrow_mut().last_event.insert(key, nonce);
+                                if let Some(prev) = prev {
+                                    if prev >= nonce {
+                                        w.fail("event:duplicated-or-out-of-order", format!("proxy of service {} returned the event with value {} after the one with value {}", cookie, nonce, prev));
+                                    } else {
+                                        w.count("event:order-checked");
+                                    }
+                                }
+                            }
+                            (Err(e), _) => w.fail("event:undecodable", format!("event payload does not decode: {:?}", e)),
+                            _ => {}
+                        }
                     }
                     _ => break,
                 }
